@@ -144,6 +144,17 @@ def run_refusal_oracle(outcome, tier, seed):
                 both = history.join_docs(fmt, [t, d2[1]], rng)
                 plans.append(("second_doc", "", fmt, len(reqs), v))
                 reqs.append({"id": len(reqs), "to": "toml", "calls": [{"input": shared.hx(both), "from": fmt, "mode": mode, "sched": sched}]})
+    # second documents that are next to nothing: one byte of MessagePack, a bare scalar, an empty YAML document
+    tiny = [("msgpack", b"\x81\xa1a\x01", x) for x in (b"\x00", b"\x00\x00\x00", b"\xc0", b"\xc2", b"\xa0", b"\x80", b"\x90", b"\x01")]
+    tiny += [("json", b'{"a":1}', x) for x in (b"0", b" null", b'\n""', b"{}", b"[]", b"\n\n 0\n")]
+    tiny += [("yaml", b"a: 1\n", x) for x in (b"---\n", b"---\n---\n", b"--- ~\n", b"...\n---\n", b"---\n# c\n", b"---", b"--- \n\n")]
+    for fmt, t, second in tiny:
+        for mode, sched in (("slice", None), ("reader", {"kind": "full"}), ("reader", {"kind": "fixed", "n": 1})):
+            c = {"input": shared.hx(t + second), "from": fmt, "mode": mode}
+            if sched:
+                c["sched"] = sched
+            plans.append(("second_doc", "", fmt, len(reqs), {"a": 1}))
+            reqs.append({"id": len(reqs), "to": "toml", "calls": [c]})
     resps = common.harness_batch(reqs)
 
     def readback(out, v, info):
